@@ -55,7 +55,27 @@ Theorem C16_dexpr_roundtrip :
 Proof. exact print_parse_roundtrip. Qed.
 Print Assumptions C16_dexpr_roundtrip.
 
-(* full statement of the remaining clause (not proved; decided per run by the oracle):
+(* ... and read back as a parameter / return-type ANNOTATION (type_from_annotation, what the checker
+   does with the printed signature) it yields a dimension type with the meaning of the inferred one.
+   With C02_accept_sound (Props/C02.v: the body and every call site are typed at the meaning of
+   the types involved) this is the semantic half of "the printed signature is a valid annotation"
+   for monomorphic signatures; generic signatures need the registry's type parameters, which the
+   round trip excludes (reg_tparams r = []). *)
+Theorem C16_annotation_roundtrip_partial :
+  forall (r : registry), reg_tparams r = [] ->
+  forall (l : blist), Forall (registered r) l ->
+    exists d, type_from_annotation r (ADim (print_dexpr l)) = Ok (TDim d) /\
+      forall th x, dd th (to_dtype l) x -> dd th d x.
+Proof. exact annotation_roundtrip. Qed.
+Print Assumptions C16_annotation_roundtrip_partial.
+
+(* full statement of the remaining clause (not proved; decided per run by the oracle).  It does NOT
+   follow from solver soundness + C16_lcm_iso + the round trip: those are statements about the
+   MEANING (ground instances) of types, while this clause is about the checker's OUTPUT at call
+   sites.  It needs (a) principality — re-checking with the annotations yields the same scheme,
+   not just one with the same instances — and (b) invariance of check_statement under the renaming
+   of fresh variables (the annotated definition consumes a different number of fresh names, so
+   tc_next differs afterwards).  Neither is proved for the model.
    re-checking a function with the signature inferred for it yields the same scheme, up to the
    names of the bound variables — here: the checker accepts it and every call site gets the same
    verdict and result type. *)
